@@ -21,6 +21,7 @@ structure State where
   d : Disp.State := {}
   pending : List Nat := []       -- the queue, oldest first
   accepted : List Nat := []      -- acceptance order
+  dropped : List Nat := []       -- jobs removed by somebody other than the dispatcher (Purge), in order
   deriving DecidableEq, Repr, Inhabited
 
 def init : State := {}
@@ -32,7 +33,7 @@ def step (s : State) : Ev → Except String State
   | .drop j =>
     match s.pending with
     | [] => .error s!"Dequeue returned job {j} from an empty queue"
-    | h :: rest => if h != j then .error s!"Dequeue returned job {j}, the oldest pending job is {h}" else .ok { s with pending := rest }
+    | h :: rest => if h != j then .error s!"Dequeue returned job {j}, the oldest pending job is {h}" else .ok { s with pending := rest, dropped := s.dropped ++ [j] }
   | .d (.deq j) =>
     match s.pending with
     | [] => .error s!"Dequeue returned job {j} from an empty queue"
